@@ -11,7 +11,8 @@
 //!    `ConfigRaftCmd::ConfigRemove`; follower side of a routed publish (`raft/cluster/route.rs`):
 //!    `ConfigCmd::SetTmpValue`
 //!  * client disconnect: the request stream of the bi-directional gRPC call ends -> `BiStreamConn`
-//!    sends `ConnClose` -> the manager sends `ConfigCmd::RemoveSubscribeClient`.
+//!    sends `ConnClose` -> the manager sends `ConfigCmd::RemoveSubscribeClient`; a long-poll client that
+//!    goes away = its oneshot receiver is dropped (actix drops the handler future).
 //! gRPC clients are real `BiStreamConn` actors registered with `BiStreamManageCmd::AddConn` (what
 //! `BiRequestStreamServerImpl::request_bi_stream` does). Their request stream is a `tonic::Streaming`
 //! over an in-memory body (the harness holds the sending half = the client's half of the HTTP/2 stream),
@@ -35,11 +36,14 @@
 //!  S2 push: after every applied publish that changes the applied content of k (first publish, publish
 //!     with different content) or remove of an existing k, every connected client subscribed to k
 //!     (subscribed and neither unsubscribed nor disconnected since) finds a `ConfigChangeNotifyRequest`
-//!     naming k (dataId, group, tenant up to "public" == "") in its response channel.
+//!     naming k (dataId, group, tenant up to "public" == "") in its response channel. "Finds" is decided
+//!     in logical time (scheduler rounds, see `ROUNDS`), not with the clock.
 //!
 //! What is NOT decided here: delivery over HTTP/2 and the SDK's reaction (E3 part), detection-timeout
 //! eviction of silent connections (15 s + 3 s), true thread interleavings (ConfigActor and BiStreamManage
-//! run on different threads in the server; the message order between them is the same FIFO order).
+//! run on different threads in the server; the message order between them is the same FIFO order),
+//! content that arrives by snapshot install / transfer import (`SetFullValue`, which never notifies - it is
+//! neither a publish nor a remove in the sense of the statement, see report).
 
 use actix::prelude::*;
 use bean_factory::{BeanDefinition, BeanFactory};
@@ -94,8 +98,13 @@ const TICK_MS: i64 = 500;
 const SLACK_MS: i64 = 2500;
 /// what the Java SDK asks for: 30 s, minus the 500 ms the endpoint subtracts
 const FAR_MS: i64 = 29_500;
-/// how long an expected push / an asynchronous disconnect may take before the harness gives up
-const PUSH_WAIT: Duration = Duration::from_secs(3);
+/// Logical (not wall-clock) bound for an expected push / an asynchronous disconnect. The chain
+/// ConfigActor -> BiStreamManage -> BiStreamConn -> response channel consists of mailbox messages and one
+/// spawned future on this very thread: no timer, no I/O, no other thread. One "round" = the harness task
+/// goes to sleep for 1 ms, i.e. returns to the scheduler, which polls every ready local task before the
+/// harness runs again. A push needs 2-3 rounds; if it has not arrived after ROUNDS rounds it never will.
+/// Stalls of the whole thread (CPU contention) do not consume rounds without progress.
+const ROUNDS: u32 = 200;
 
 fn cfg_key(k: usize) -> ConfigKey {
     let (d, g, t) = KEYS[k.min(KEYS.len() - 1)];
@@ -565,13 +574,14 @@ impl Run {
         let Client { id, body_tx, rx, .. } = c;
         drop(body_tx); // request stream ends -> BiStreamConn sends ConnClose -> RemoveSubscribeClient
         drop(rx);
-        let t0 = std::time::Instant::now();
+        let mut rounds = 0;
         loop {
             if !self.conn_list().await?.contains(&id) {
                 break;
             }
-            if t0.elapsed() > PUSH_WAIT {
-                return Err(Fail::Discard(format!("connection {} still registered {:?} after its stream ended", id, PUSH_WAIT)));
+            rounds += 1;
+            if rounds > ROUNDS {
+                return Err(Fail::Discard(format!("connection {} still registered {} scheduler rounds after its stream ended", id, ROUNDS)));
             }
             tokio::time::sleep(Duration::from_millis(1)).await;
         }
@@ -691,7 +701,9 @@ impl Run {
     async fn expect_push(&mut self, opi: usize, slot: u8, k: usize, why: &str) -> Result<(), Fail> {
         let key = cfg_key(k);
         let (kd, kg, kt) = KEYS[k.min(KEYS.len() - 1)];
-        let deadline = tokio::time::Instant::now() + PUSH_WAIT;
+        // the manager has handled every NotifyConfig the change produced once it answers this
+        self.conn_list().await?;
+        let mut rounds = 0u32;
         let mut seen: Vec<String> = vec![];
         loop {
             let c = match self.clients.get_mut(&slot) {
@@ -700,23 +712,32 @@ impl Run {
             };
             let id = c.id.clone();
             let declared = c.declared;
-            match tokio::time::timeout_at(deadline, c.rx.recv()).await {
-                Err(_) => {
-                    return viol(format!(
-                        "op #{}: {} - client {} (slot {}) is subscribed to {} but no ConfigChangeNotifyRequest for it reached its response channel within {:?} (other payloads seen: {:?})",
-                        opi,
-                        why,
-                        id,
-                        slot,
-                        key_name(k),
-                        PUSH_WAIT,
-                        seen
-                    ));
+            let got = match c.rx.try_recv() {
+                Ok(x) => Some(x),
+                Err(tokio::sync::mpsc::error::TryRecvError::Disconnected) => None,
+                Err(tokio::sync::mpsc::error::TryRecvError::Empty) => {
+                    rounds += 1;
+                    if rounds > ROUNDS {
+                        return viol(format!(
+                            "op #{}: {} - client {} (slot {}) is subscribed to {} but no ConfigChangeNotifyRequest for it reached its response channel ({} scheduler rounds after the manager had handled all notifications; other payloads seen: {:?})",
+                            opi,
+                            why,
+                            id,
+                            slot,
+                            key_name(k),
+                            ROUNDS,
+                            seen
+                        ));
+                    }
+                    tokio::time::sleep(Duration::from_millis(1)).await;
+                    continue;
                 }
-                Ok(None) | Ok(Some(Err(_))) => {
+            };
+            match got {
+                None | Some(Err(_)) => {
                     return Err(Fail::Discard(format!("op #{}: the server closed the response channel of client {}", opi, id)));
                 }
-                Ok(Some(Ok(p))) => {
+                Some(Ok(p)) => {
                     let ty = PayloadUtils::get_payload_type(&p).cloned().unwrap_or_default();
                     let body: serde_json::Value = p.body.as_ref().and_then(|b| serde_json::from_slice(&b.value).ok()).unwrap_or(serde_json::Value::Null);
                     let d = body.get("dataId").and_then(|x| x.as_str()).unwrap_or("");
@@ -724,6 +745,13 @@ impl Run {
                     let t = body.get("tenant").and_then(|x| x.as_str()).unwrap_or("");
                     let t_norm = if t == "public" { "" } else { t };
                     if ty == "ConfigChangeNotifyRequest" && d == kd && g == kg && t_norm == kt {
+                        // evidence that ROUNDS is far from what a push ever needs
+                        self.label(match rounds {
+                            0 => "push_arrived_after_0_rounds",
+                            1..=3 => "push_arrived_after_1_to_3_rounds",
+                            4..=20 => "push_arrived_after_4_to_20_rounds",
+                            _ => "push_arrived_after_more_than_20_rounds",
+                        });
                         if t == "public" {
                             self.label("push_tenant_rewritten_to_public");
                         }
@@ -1102,11 +1130,11 @@ pub fn main(ctx: &Ctx) -> i32 {
             stats.record(&case, &rep);
         }
     }
-    let n = ctx.tier.pick(4000u32, 80_000u32);
+    let n = ctx.tier.pick(6000u32, 120_000u32);
     // cases mostly sleep (waiting for the actor's real 500 ms tick), so more workers than cores
     let workers = cores() * 4;
     let st = stats.clone();
-    let fail = run_cases(ctx, &stats, case_strategy as fn() -> _, n, workers, 400, move |c: &Case| {
+    let fail = run_cases(ctx, &stats, case_strategy as fn() -> _, n, workers, 150, move |c: &Case| {
         let rep = run_case(c);
         if rep.labels.iter().any(|l| l == "case_touches_known_finding") {
             st.excluded_known.fetch_add(1, Ordering::Relaxed);
